@@ -81,6 +81,13 @@ def main():
             Deep.start = lambda self: None
             d = deep.start(code)
             out['frames'] = [list(d.config.is_app_frame(p)) for p in case['paths']]
+        elif kind == 'app_root_src':
+            import deep
+            from deep.api.deep import Deep
+            Deep.start = lambda self: None
+            d = deep.start(code)
+            out['root'] = d.config.APP_ROOT
+            out['computed'] = os.path.dirname(os.path.dirname(os.path.abspath(__file__)))
     except BaseException as ex:
         out['error'] = repr(ex)
     print('RESULT ' + json.dumps(out, default=repr))
